@@ -14,6 +14,10 @@ func (te *tableEngine) tableGameOpen() error {
 	te.lock.Lock()
 	defer te.lock.Unlock()
 
+	if te.isReleased || te.table.State.Status == TableStateStatus_TableClosed {
+		return nil
+	}
+
 	if te.table.State.GameState != nil {
 		fmt.Printf("[DEBUG#tableGameOpen] Table (%s) game (%s) with game count (%d) is already opened.\n", te.table.ID, te.table.State.GameState.GameID, te.table.State.GameCount)
 		return nil
